@@ -143,6 +143,9 @@ structure Input where
   cwd : Text           -- working directory of the process (absolute); matters when `root` is a relative path
   path : List Text     -- directories at the front of the process' PATH. The manager never consults the PATH,
                        -- so the model ignores it; the worlds hold executables `notation-<name>` there
+  peers : List Text    -- names OTHER goroutines look up / uninstall through the same manager object while `op` is
+                       -- repeated many times for `name`. The manager shares no mutable state between calls, so
+                       -- the model ignores them: every concurrent answer is the sequential answer for its own name
   history : List Step  -- earlier steps on the same manager object; the observation is that of `op`, made afterwards
   deriving Repr, FromJson, ToJson
 
@@ -438,7 +441,7 @@ def absRoot (i : Input) : Text := if isRooted i.root then i.root else join [i.cw
 
 /-- the input the observed operation effectively sees -/
 def eff (i : Input) : Input :=
-  let j := { i with root := absRoot i }
+  let j := { i with root := absRoot i, peers := [] }
   { j with fs := stateAfter j j.history, history := [] }
 
 def run (i : Input) : Obs := runOp (eff i)
